@@ -3,7 +3,7 @@
    any open flags satisfying what the proofs need; the corollaries about [write] (the
    guard and flags read from the source) discharge those conditions by computation on
    Gen/TxtarWriteConsts.v, so they stop compiling when the source stops satisfying them. *)
-From Coq Require Import List Bool Arith Lia.
+From Coq Require Import List Bool Arith Lia NArith.
 From Coq.Strings Require Import Byte.
 From GI Require Import Lib.Bytes Gen.TxtarWriteConsts Txtar.Txtar
   TxtarWrite.Path TxtarWrite.TxtarWrite TxtarWrite.PathFacts.
@@ -456,3 +456,13 @@ Theorem write_existing_is_error cwd fs dir a fs' :
 Proof.
   intros H n d HI. apply (write_gen_fresh _ _ _ _ _ _ _ the_flags_excl H n d HI).
 Qed.
+
+(* permission bits (regenerated constants write_dir_perm / write_file_perm): with the
+   umask 022 the harness runs under, a created directory can be searched and written by
+   its owner (so the files of later entries can be created in it) and a created file can
+   be read and written by its owner *)
+Lemma created_dir_usable : N.land (created_mode 18 Dir) 448 = 448%N.
+Proof. reflexivity. Qed.
+
+Lemma created_file_usable d : N.land (created_mode 18 (File d)) 384 = 384%N.
+Proof. reflexivity. Qed.
